@@ -125,7 +125,9 @@ def _steps_of(hist, name):
             addressing(st, h)
             out.append(st)
         elif k == "conf":
-            out.append({"k": "confirm", "uns": bool(h["uns"]), "seq": h["seq"]})
+            st = {"k": "confirm", "uns": bool(h["uns"]), "seq": h["seq"]}
+            addressing(st, h)
+            out.append(st)
         else:
             raise ValueError("unknown abstract step %r" % (h,))
     return out
